@@ -197,6 +197,8 @@ theorem fr_layerLoop (dp : Path) (T : List Path) (fs0 : FS) (dest : Str) (o : Op
     have hst1 : FStOK T dest { st0 with size := st0.size + e.size } := ⟨hst0.dirs, hst0.tmp, hst0.staged⟩
     have hTp : pathComps (join dest (clean e.name)) ∈ T := hTe _ (by simp [touchedOf])
     simp only [layerLoop]
+    split
+    · exact hrec _ hst1
     refine bindF dp T fs0 _ _ (fr_stage dp T fs0 dest o e _ hd htmp
       (fun hc => hTe _ (by simp only [touchedOf]; rw [if_pos hc]; simp)) hst1) ?_
     intro stR hstR
